@@ -10,6 +10,7 @@ import (
 )
 
 type GenOpts struct {
+	RowMixP   int  // percent of log-mode cases shaped as: filtered array elements whose verdicts alternate within a log
 	RefMixP   int  // percent of log-mode cases shaped as: positive log_addr argument filter + reference filters
 	Filters   bool // generate filters (C12)
 	LogAddrP  int  // percent of log-mode cases with a log_addr filter
@@ -649,7 +650,268 @@ func genFilters(r *lib.RNG, c *GCase, o GenOpts) {
 	}
 	if c.Decl.Mode() == "log" && r.Intn(100) < o.RefMixP {
 		refMix(r, c)
+	} else if c.Decl.Mode() == "log" && r.Intn(100) < o.RowMixP {
+		rowMix(r, c)
 	}
+	fillFilteredEmptyArrays(r, c)
+}
+
+// An empty selected array yields one row whose array column has no element;
+// the reading says nothing about a filter on that column, and the oracle would
+// have to abstain for the whole case.  Give such arrays one element instead, so
+// that every generated case is judged.
+func fillFilteredEmptyArrays(r *lib.RNG, c *GCase) {
+	d := c.Decl
+	sh := d.SigHash()
+	for i, in := range d.Inputs {
+		t := parseType(in.Type)
+		if !(in.Selected() && !in.Indexed && t.Arr && in.Flt.Active()) {
+			continue
+		}
+		for bi := range c.Blocks {
+			for ti := range c.Blocks[bi].Txs {
+				logs := c.Blocks[bi].Txs[ti].Logs
+				for li := range logs {
+					l := &logs[li]
+					if l.Match && !l.BadABI && len(l.Vals[i].Elems) == 0 {
+						l.Vals[i].Elems = []Val{genScalar(r, t.elem())}
+						*l = BuildLog(d, sh, l.Vals, l.Addr, l.Idx)
+					}
+				}
+			}
+		}
+	}
+}
+
+// rowMix reshapes a log-mode case so that ONE log yields several rows with
+// different verdicts: a selected array input (uint[], string[], address[], fixed
+// or dynamic length) of 3-6 elements per log, a filter on the element whose
+// verdict alternates along the array in every order (A R A R.., R A R.., A A R R,
+// R R A A, random), both aggregations, and usually a second filter on a block
+// field (constant within the log).  The accumulator must start afresh for every row.
+func rowMix(r *lib.RNG, c *GCase) {
+	d := &c.Decl
+	k := c.Kind
+	for _, suf := range []string{"-nofilter", "-odd"} {
+		k = strings.ReplaceAll(k, suf, "")
+	}
+	c.Kind = k + "-rowmix"
+	c.DB, c.Comment, c.Expect = nil, "", ""
+	for i := range d.Inputs {
+		d.Inputs[i].Flt = Flt{}
+		if t := parseType(d.Inputs[i].Type); t.Arr && d.Inputs[i].Selected() && !d.Inputs[i].Indexed {
+			d.Inputs[i].Type = typeName(t.elem()) // keep one selected array only
+		}
+	}
+	for i := range d.Block {
+		d.Block[i].Flt = Flt{}
+	}
+	addCol := func(col string) {
+		for _, x := range d.TableCols {
+			if x == col {
+				return
+			}
+		}
+		d.TableCols = append(d.TableCols, col)
+	}
+	elem := lib.Pick(r, []string{"uint256", "uint256", "uint64", "uint24", "string", "address", "address"})
+	n := r.Range(3, 6)
+	ty := elem + "[]"
+	if elem != "string" && r.Chance(1, 4) {
+		ty = fmt.Sprintf("%s[%d]", elem, n)
+	}
+	ai := -1
+	for i, in := range d.Inputs {
+		if !in.Indexed {
+			ai = i
+			break
+		}
+	}
+	if ai < 0 {
+		d.Inputs = append(d.Inputs, Input{Name: fmt.Sprintf("a%d", len(d.Inputs))})
+		ai = len(d.Inputs) - 1
+	}
+	d.Inputs[ai].Type = ty
+	d.Inputs[ai].Column = "c_" + d.Inputs[ai].Name
+	addCol(d.Inputs[ai].Column)
+	if r.Bool() {
+		has := false
+		for _, b := range d.Block {
+			has = has || b.Name == "abi_idx"
+		}
+		if !has {
+			d.Block = append(d.Block, BD{Name: "abi_idx", Column: "abi_idx"})
+			addCol("abi_idx")
+		}
+	}
+
+	// the element filter and generators of accepted / rejected elements
+	var f Flt
+	var acc, rej func() Val
+	et := parseType(ty).elem()
+	switch et.Base {
+	case "uint":
+		T := int64(r.Range(2, 1<<20))
+		up := func() Val { return Val{Int: big.NewInt(T + 1 + int64(r.Intn(3))).String()} }
+		down := func() Val { return Val{Int: big.NewInt(T - 1 - int64(r.Intn(2))).String()} }
+		same := func() Val { return Val{Int: big.NewInt(T).String()} }
+		other := func() Val {
+			if r.Bool() {
+				return up()
+			}
+			return down()
+		}
+		f = Flt{Op: lib.Pick(r, []string{"gt", "lt", "eq", "ne"}), Args: []string{big.NewInt(T).String()}}
+		switch f.Op {
+		case "gt":
+			acc, rej = up, func() Val {
+				if r.Bool() {
+					return same()
+				}
+				return down()
+			}
+		case "lt":
+			acc, rej = down, func() Val {
+				if r.Bool() {
+					return same()
+				}
+				return up()
+			}
+		case "eq":
+			acc, rej = same, other
+		default:
+			acc, rej = other, same
+		}
+	case "string":
+		s1, s2 := "in_"+genText(r, 3), "IN_"+genText(r, 2)
+		one := func() Val { return Val{Str: s1} }
+		two := func() Val { return Val{Str: s2} }
+		out := func() Val { return Val{Str: lib.Pick(r, []string{"out", s1 + "x", "", "x" + s2})} }
+		f = Flt{Op: lib.Pick(r, []string{"contains", "!contains", "eq", "ne"}), Args: []string{s1, s2}}
+		in := func() Val {
+			if r.Bool() {
+				return one()
+			}
+			return two()
+		}
+		switch f.Op {
+		case "contains":
+			acc, rej = in, out
+		case "!contains":
+			acc, rej = out, in
+		case "eq": // only the first argument counts
+			acc, rej = one, func() Val {
+				if r.Bool() {
+					return two()
+				}
+				return out()
+			}
+		default:
+			acc, rej = func() Val {
+				if r.Bool() {
+					return two()
+				}
+				return out()
+			}, one
+		}
+	default: // address
+		a1, a2 := genAddr(r), r.Bytes(20)
+		in := func() Val {
+			if r.Bool() {
+				return Val{Bytes: a1}
+			}
+			return Val{Bytes: a2}
+		}
+		out := func() Val {
+			b := append([]byte{}, a1...)
+			b[r.Intn(20)] ^= byte(1 + r.Intn(200))
+			return Val{Bytes: b}
+		}
+		f = Flt{Op: lib.Pick(r, []string{"contains", "!contains", "eq", "ne"}), Args: []string{hexArg(r, a1), hexArg(r, a2)}}
+		if f.Op == "contains" || f.Op == "eq" {
+			acc, rej = in, out
+		} else {
+			acc, rej = out, in
+		}
+	}
+	d.Inputs[ai].Flt = f
+
+	// the chain again (the event changed), then the arrays in alternating orders
+	c.Blocks = GenChain(r, *d, "log")
+	sh := d.SigHash()
+	var idxs []uint64
+	for bi := range c.Blocks {
+		for ti := range c.Blocks[bi].Txs {
+			logs := c.Blocks[bi].Txs[ti].Logs
+			for li := range logs {
+				l := &logs[li]
+				if !l.Match {
+					continue
+				}
+				m := n
+				if parseType(ty).Fixed == 0 {
+					m = r.Range(3, 6)
+				}
+				pat := r.Intn(5)
+				var es []Val
+				for j := 0; j < m; j++ {
+					var a bool
+					switch pat {
+					case 0:
+						a = j%2 == 0
+					case 1:
+						a = j%2 == 1
+					case 2:
+						a = j < m/2
+					case 3:
+						a = j >= m/2
+					default:
+						a = r.Bool()
+					}
+					if a {
+						es = append(es, acc())
+					} else {
+						es = append(es, rej())
+					}
+				}
+				l.Vals[ai] = Val{IsArr: true, Elems: es}
+				*l = BuildLog(*d, sh, l.Vals, l.Addr, l.Idx)
+				idxs = append(idxs, l.Idx)
+			}
+		}
+	}
+	// a second filter on a block field, true for some logs and false for others
+	if r.Chance(2, 3) {
+		var g Flt
+		name := "log_idx"
+		if r.Chance(1, 3) {
+			name = "log_addr"
+			vals := columnValues(c, -1, "log_addr")
+			a := genAddr(r)
+			if len(vals) > 0 {
+				a = lib.Pick(r, vals).B
+			}
+			g = Flt{Op: lib.Pick(r, []string{"eq", "ne", "contains", "!contains"}), Args: []string{hexArg(r, a)}}
+		} else {
+			mid := uint64(1)
+			if len(idxs) > 0 {
+				mid = lib.Pick(r, idxs)
+			}
+			g = Flt{Op: lib.Pick(r, []string{"gt", "lt", "eq", "ne"}), Args: []string{fmt.Sprint(mid)}}
+		}
+		found := false
+		for i := range d.Block {
+			if d.Block[i].Name == name && !found {
+				d.Block[i].Flt = g
+				found = true
+			}
+		}
+		if !found {
+			d.Block = append(d.Block, BD{Name: name, Column: name, Flt: g})
+			addCol(name)
+		}
+	}
+	d.Agg = lib.Pick(r, []string{"", "or", "and", "and", "AND"})
 }
 
 // refMix reshapes a log-mode case: a positive log_addr filter whose literal
